@@ -66,6 +66,14 @@ def promiseOp : List String → Option String
     let st := String.join (m.cores.zipIdx.map fun (ci : Core × Nat) =>
       if moved.contains ci.2 then "M" else match ci.1.st with | .pending => "P" | .fulfilled _ => "F" | .rejected _ => "R")
     pure s!"{",".intercalate (outs.map outStrP)} | log={if log.isEmpty then "-" else ",".intercalate log} | st={if st.isEmpty then "-" else st}"
+  | "progd" :: ws => do
+    -- the same program run by a harness that lets go of every handle after its last use: lifetimes are invisible
+    -- to the model, so the answers and the log must be the same (final states are not observable there)
+    let ops ← (splitOps ws).mapM parseOp
+    if !quiescentB {} ops then pure "MODEL-FUEL" else
+    let (m, outs) := execAll {} ops
+    let log := m.log.filterMap evStr
+    pure s!"{",".intercalate (outs.map outStrP)} | log={if log.isEmpty then "-" else ",".intercalate log} | st=-"
   | _ => none
 
 end Drv
